@@ -604,6 +604,9 @@ class CallMixin:
             if m in ("upper", "lower", "strip", "lstrip", "rstrip", "casefold", "title") and not pos:
                 f = self.get_uf("str_" + m, [smt.StrS], smt.StrS)
                 return k(st, SV(smt.mk_str(f(s)), "str"))
+            if m == "translate" and len(pos) == 1:
+                f = self.get_uf("str_translate", [smt.StrS, Val], smt.StrS)
+                return k(st, SV(smt.mk_str(f(s, pos[0].t)), "str"))
             if m == "startswith" and pos[0].ty == "str" and len(pos) == 1:
                 return k(st, sv_bool(z3.PrefixOf(Val.s(pos[0].t), s)))
             if m == "endswith" and pos[0].ty == "str" and len(pos) == 1:
